@@ -1127,8 +1127,8 @@ impl MachineState {
                     }
                 }
                 Ok(Number::Integer(n)) => {
-                    let n: u32 = (&*n).try_into().unwrap();
-                    if let Some(c) = std::char::from_u32(n) {
+                    let n: Option<u32> = (&*n).try_into().ok();
+                    if let Some(c) = n.and_then(std::char::from_u32) {
                         string.push(c);
                         continue;
                     }
@@ -2766,9 +2766,9 @@ impl Machine {
             _ => {
                 match Number::try_from((a2, &self.machine_st.arena.f64_tbl)) {
                     Ok(Number::Integer(n)) => {
-                        let n: u32 = (&*n).try_into().unwrap();
+                        let n: Option<u32> = (&*n).try_into().ok();
 
-                        if std::char::from_u32(n).is_some() {
+                        if let Some(n) = n.filter(|n| std::char::from_u32(*n).is_some()) {
                             fixnum_as_cell!(Fixnum::build_with(n))
                         } else {
                             let err = self.machine_st.representation_error(RepFlag::InCharacterCode);
@@ -2949,8 +2949,8 @@ impl Machine {
             _ => {
                 match Number::try_from((a2, &self.machine_st.arena.f64_tbl)) {
                     Ok(Number::Integer(n)) => {
-                        let n: u32 = (&*n).try_into().unwrap();
-                        let n = std::char::from_u32(n);
+                        let n: Option<u32> = (&*n).try_into().ok();
+                        let n = n.and_then(std::char::from_u32);
                         let c = match n {
                             Some(c) => c,
                             _ => {
